@@ -206,6 +206,9 @@ pub fn check(f: &Facts, stats: &mut Stats) -> CheckResult {
     for c in &classes {
         stats.label(c);
     }
+    if m.anc.iter().any(|a| a.len() > 30) {
+        stats.label("ancestors>30");
+    }
     if nontrivial {
         stats.label("nontrivial");
         stats.nontrivial(f.canonical_hash());
@@ -235,16 +238,22 @@ impl Property for C04 {
     }
     fn cases(&self, tier: Tier) -> u64 {
         match tier {
-            Tier::Quick => 30_000,
+            Tier::Quick => 16_000,
             Tier::Thorough => 300_000,
         }
     }
     fn required_labels(&self, _tier: Tier) -> Vec<&'static str> {
-        vec!["nontrivial", "pair:identical", "pair:ancestor-descendant", "pair:siblings", "pair:cousins", "pair:no-common-ancestor", "both-annotated", "one-annotated", "none-annotated"]
+        vec!["nontrivial", "ancestors>30", "pair:identical", "pair:ancestor-descendant", "pair:siblings", "pair:cousins", "pair:no-common-ancestor", "both-annotated", "one-annotated", "none-annotated"]
     }
     fn run_generated(&self, tier: Tier, seed: u64, n: u64, stats: &mut Stats) -> Option<(Value, Failure)> {
         let max = if tier == Tier::Quick { 12 } else { 20 };
-        run_typed(gen::facts(GenCfg::small().terms(1, max).recs(8)), seed, n, stats, check)
+        // 1 case in 40: 32-40 terms in chain / fan shapes (ancestor sets beyond the inline capacity of an
+        // id group; ladders are excluded here: the library's distance search is exponential on them)
+        let strategy = proptest::prop_oneof![
+            39 => gen::facts(GenCfg::small().terms(1, max).recs(8)),
+            1 => gen::facts(GenCfg::small().terms(32, 40).recs(6).shapes(&[1, 3])),
+        ];
+        run_typed(proptest::strategy::Strategy::boxed(strategy), seed, n, stats, check)
     }
     fn replay(&self, case: &Value, stats: &mut Stats) -> Result<CheckResult, String> {
         replay_typed::<Facts, _>(case, stats, check)
